@@ -218,6 +218,35 @@ def file_case(case):
                           innate_tip=case["tip"])
                 has_spring, has_tip = case["spring"], case["tip"]
             ncurves = 1 if case.get("csv") else 2
+            if not (has_spring or has_tip or case["override"]):
+                # appending to an existing group
+                from nanite.read import load_data
+                good = os.path.join(d, "good.h5")
+                write_map(good, 2, 1, "row")
+                os.makedirs(os.path.join(d, "sub"))
+                grp0 = IndentationGroup(good)
+                n0 = len(grp0)
+                import afmformats
+                bad = afmformats.load_data(path, modality="force-distance")
+                from nanite.indent import Indentation
+                for how in ("append", "iadd"):
+                    try:
+                        if how == "append":
+                            grp0.append(bad[0])
+                        else:
+                            grp0 += [bad[0]]
+                        viol("refusal", how, "curve with neither spring "
+                             "constant nor tip position was accepted by "
+                             f"{how}")
+                    except MissingMetaDataError:
+                        pass
+                    if len(grp0) != n0 or any(g is bad[0] for g in grp0):
+                        viol("refusal", how + ":member", f"after the "
+                             f"refused {how} the group holds {len(grp0)} "
+                             f"curves (had {n0})")
+                        break
+                os.remove(good)
+                shutil.rmtree(os.path.join(d, "sub"))
             mo = {"spring constant": 0.123} if case["override"] else None
             should_refuse = not (has_spring or has_tip or case["override"])
             for loader in ("IndentationGroup", "load_group"):
